@@ -188,8 +188,9 @@ text_st = st.text(alphabet=st.characters(min_codepoint=0x20, max_codepoint=0x7E)
 # texts that look like something another layer understands (a P1 data line, an identification line, an end line), with the
 # lengths 10 and 13 (whose length octet is LF / CR) represented
 LAYER_TEXTS = ["1.8.0(123)", "1.8.0(1*kW)", "1-0:1.8.0(1)", "31.7.0(1*A)\r\n", "/ABC5x\r\n!\r\n", "!ABCD", "(1)(2)", "0.0(0)", "1.7.0(12345)", "2.8.0(00001*kWh)", "1.0.0(210222161900W)"]
-text1_st = st.one_of(st.text(alphabet=st.characters(min_codepoint=0x20, max_codepoint=0x7E), min_size=1, max_size=24), st.text(alphabet=st.characters(min_codepoint=0x20, max_codepoint=0x7E), min_size=1, max_size=24), st.sampled_from(LAYER_TEXTS))
-long_text_st = st.tuples(st.sampled_from([127, 128, 129, 200, 255]) | st.integers(25, 255), st.integers(0, 2**31)).map(lambda t: "".join(__import__("random").Random(t[1]).choices("ABCDEFGHIJKLMNOPQRSTUVWXYZabcdefghijklmnopqrstuvwxyz0123456789 _-", k=t[0])))
+_long_printable_st = st.tuples(st.sampled_from([127, 128, 129, 130, 131, 200, 255]) | st.integers(25, 255), st.integers(0, 2**31)).map(lambda t: "".join(__import__("random").Random(t[1]).choices("ABCDEFGHIJKLMNOPQRSTUVWXYZabcdefghijklmnopqrstuvwxyz0123456789 _-", k=t[0])))
+text1_st = st.one_of(st.text(alphabet=st.characters(min_codepoint=0x20, max_codepoint=0x7E), min_size=1, max_size=24), st.text(alphabet=st.characters(min_codepoint=0x20, max_codepoint=0x7E), min_size=1, max_size=24), st.sampled_from(LAYER_TEXTS), _long_printable_st)
+long_text_st = st.tuples(st.sampled_from([127, 128, 129, 130, 131, 200, 255]) | st.integers(25, 255), st.integers(0, 2**31)).map(lambda t: "".join(__import__("random").Random(t[1]).choices("ABCDEFGHIJKLMNOPQRSTUVWXYZabcdefghijklmnopqrstuvwxyz0123456789 _-", k=t[0])))
 ascii_text_st = st.one_of(text_st, text_st, long_text_st, st.text(alphabet=st.characters(min_codepoint=0x00, max_codepoint=0x7F), min_size=0, max_size=24), text_st.map(lambda t: t[:20] + "\x00\x00"), st.sampled_from(LAYER_TEXTS))
 small_reg_st = st.integers(0, 127) | st.sampled_from([41, 0x29, 0x21, 0x2F])  # registers whose octets are all 7-bit ASCII
 
@@ -491,3 +492,35 @@ class local_tz:
             os.environ["TZ"] = self.old
         time.tzset()
         return False
+
+
+def same_instant_twin(spec, new_dev):
+    """Another date-time denoting the SAME instant with a different deviation (civil fields shifted), or None if not representable."""
+    y, mo, d, dow, h, mi, sec, hs, dev, status = spec
+    if dev == UNSPEC_DEV or new_dev == dev:
+        return None
+    try:
+        t = _dt.datetime(y, mo, d, h, mi, sec) + _dt.timedelta(minutes=dev - new_dev)  # utc = local + deviation
+    except OverflowError:
+        return None
+    return (t.year, t.month, t.day, dow, t.hour, t.minute, t.second, hs, new_dev, status)
+
+
+def run_in_thread(fn):
+    """Run fn() on a fresh (non-main) thread and return its result / re-raise its exception."""
+    import threading
+
+    box = {}
+
+    def target():
+        try:
+            box["r"] = fn()
+        except BaseException as exc:  # noqa: BLE001
+            box["e"] = exc
+
+    th = threading.Thread(target=target)
+    th.start()
+    th.join()
+    if "e" in box:
+        raise box["e"]
+    return box.get("r")
